@@ -269,7 +269,7 @@ fn check_lifecycle(frames: &[Value], rep: &mut Report, case: &Value) -> String {
 }
 
 async fn task_case(app: &axum::Router, data_dir: &std::path::Path, ws: &std::path::Path, rng: &mut Rng, rep: &mut Report, model: &mut Model) {
-    let kinds = ["plain", "both", "multibyte", "binary", "big", "exit7", "cancel", "cancel_after_exit", "invalid_args", "bad_cwd", "cwd_escape", "preview0", "preview2", "cap"];
+    let kinds = ["plain", "both", "multibyte", "binary", "big", "exit7", "cancel", "cancel_after_exit", "invalid_args", "bad_cwd", "cwd_escape", "preview0", "preview2", "cap", "unsupported_tool", "no_artifact_store"];
     let kind = *rng.pick(&kinds);
     let mut args = match kind {
         "plain" => json!({"command": "printf 'hello\\nworld\\n'"}),
@@ -283,6 +283,10 @@ async fn task_case(app: &axum::Router, data_dir: &std::path::Path, ws: &std::pat
         // cancel that arrives in between comes after the process has exited and before the terminal frame
         "cancel_after_exit" => json!({"command": "printf started; sleep 0.9 &"}),
         "invalid_args" => json!({"command": 5}),
+        // starts that fail before a process exists: the stream still opens with the spawn frame and
+        // ends with exactly one terminal frame
+        "unsupported_tool" => json!({"command": "printf x"}),
+        "no_artifact_store" => json!({"command": "printf x"}),
         "bad_cwd" => json!({"command": "true", "cwd": "no/such/dir"}),
         "cwd_escape" => json!({"command": "true", "cwd": "../x"}),
         "preview0" => json!({"command": "printf 'abc'; sleep 0.02; printf 'def'", "max_bytes": 0}),
@@ -293,8 +297,24 @@ async fn task_case(app: &axum::Router, data_dir: &std::path::Path, ws: &std::pat
         args["max_bytes"] = json!(*rng.pick(&[0, 1, 3, 4, 100]));
     }
     let case = json!({"kind": kind, "args": args});
-    let (st, created) = call_json(app, "POST", "/tasks", Some(json!({"tool": "bash", "args": args}))).await;
+    // the artifact store made uncreatable for the duration of this one start
+    let blobs = ws.join(".rip/artifacts/blobs");
+    let parked = ws.join(".rip/artifacts/blobs.parked");
+    let mut parked_store = false;
+    if kind == "no_artifact_store" {
+        let _ = std::fs::create_dir_all(ws.join(".rip/artifacts"));
+        parked_store = std::fs::rename(&blobs, &parked).is_ok();
+        let _ = std::fs::write(&blobs, b"not a directory");
+    }
+    let tool = if kind == "unsupported_tool" { "python" } else { "bash" };
+    let (st, created) = call_json(app, "POST", "/tasks", Some(json!({"tool": tool, "args": args}))).await;
     rep.evaluations += 1;
+    if kind == "no_artifact_store" && st != axum::http::StatusCode::CREATED {
+        let _ = std::fs::remove_file(&blobs);
+        if parked_store {
+            let _ = std::fs::rename(&parked, &blobs);
+        }
+    }
     if st != axum::http::StatusCode::CREATED {
         rep.count("task_rejected_by_http");
         return;
@@ -317,6 +337,12 @@ async fn task_case(app: &axum::Router, data_dir: &std::path::Path, ws: &std::pat
             break;
         }
         tokio::time::sleep(std::time::Duration::from_millis(20)).await;
+    }
+    if kind == "no_artifact_store" {
+        let _ = std::fs::remove_file(&blobs);
+        if parked_store {
+            let _ = std::fs::rename(&parked, &blobs);
+        }
     }
     if !terminal {
         rep.oracle_failure("C17|no-terminal-status", "task did not reach a terminal status within 8 s", case.clone());
